@@ -71,7 +71,7 @@ CLAIMS.update({
         design="3 (C12), 7.2"),
     "C04": dict(
         category="other",
-        text="Per ignore line: the glob ripgrep compiles for it (taken from the real Gitignore through a solver-chosen matching path) "
+        text="Per ignore line: the glob ripgrep compiles for it (taken from the real Gitignore through the ignore crate's verif-hooks accessor, so also for lines that match no path within the bound, e.g. a leading blank) "
              "means, for ALL well-formed relative paths up to L bytes over a 9-character path alphabet, what gitignore(5) says "
              "(I-LINE; the reference is compiled from the line's text). Every disagreement is replayed through the real Gitignore "
              "(consulted top-down as the walker does) AND through `git check-ignore --no-index`: ripgrep != git is a violation, "
@@ -241,8 +241,8 @@ def main():
         "version": 1,
         "setup_cmd": "python3 lib/mk_memchr_model.py /verif/.cache/memchr-kani",
         "hooks": {
-            "guard": "cfg(kani) (set only by kani-compiler) for the include points; cargo feature `verif-hooks` (off by default) for grep-regex's HIR accessors",
-            "enable": "cargo kani (sets cfg(kani)); rgsmt depends on grep-regex with features=[\"verif-hooks\"]; both build a scratch copy of /repo's working tree",
+            "guard": "cfg(kani) (set only by kani-compiler) for the include points; cargo feature `verif-hooks` (off by default) for grep-regex's HIR accessors, globset's strategy accessor and ignore's Gitignore::verif_globs",
+            "enable": "cargo kani (sets cfg(kani)); rgsmt depends on grep-regex, globset and ignore with features=[\"verif-hooks\"]; both build a scratch copy of /repo's working tree",
             "baseline_off_cmd": "cd /repo && cargo test --workspace --no-fail-fast --offline",
             "source_commits": [c.split()[0] for c in repo_commits],
             "add_only": True,
